@@ -105,16 +105,21 @@ def invariants_fail(N, F, n_out, out):
     return None
 
 
-def find_renaming(N, F, out):
-    """a (flips, perm) such that out is F renamed, up to clause order; None if there is none;
-    'skipped' when N is too large for the exhaustive search"""
-    if N > 6:
+def find_renaming(N, F, out, modes=('shuffle', 'shuffle', 'shuffle')):
+    """a (flips, perm) such that out is F renamed -- up to clause order, or in the same order
+    when the clause permutation is switched off; flips / perm restricted to the identity when
+    switched off.  None if there is none; 'skipped' when the search space is too large."""
+    import math
+    size = (1 if modes[0] == 'fixed' else 2 ** N) * (1 if modes[1] == 'fixed' else math.factorial(N))
+    if size > 50000:
         return 'skipped'
-    target = Counter(tuple(c) for c in out)
-    for perm in itertools.permutations(range(1, N + 1)):
-        for flips in itertools.product([1, -1], repeat=N):
-            img = Counter(tuple((1 if l > 0 else -1) * flips[abs(l) - 1] * perm[abs(l) - 1] for l in c) for c in F)
-            if img == target:
+    ordered = modes[2] == 'fixed'
+    target = [tuple(c) for c in out] if ordered else Counter(tuple(c) for c in out)
+    perms = [tuple(range(1, N + 1))] if modes[1] == 'fixed' else itertools.permutations(range(1, N + 1))
+    for perm in perms:
+        for flips in ([(1,) * N] if modes[0] == 'fixed' else itertools.product([1, -1], repeat=N)):
+            img = [tuple((1 if l > 0 else -1) * flips[abs(l) - 1] * perm[abs(l) - 1] for l in c) for c in F]
+            if (img if ordered else Counter(img)) == target:
                 return list(flips), list(perm)
     return None
 
@@ -340,25 +345,20 @@ def judge_random(ctx, stream, descr, N, F, modes, draws, got, tail=False, site='
     ctx.disagreements_checked += 1
     why = invariants_fail(N, F, got[1], got[2])
     ren = None if why else find_renaming(N, F, got[2])
-    replay = dict(input=descr, draws=draws[:40], witness=wit, implementation=[got[1], got[2]])
+    replay = dict(input=descr, draws=(draws or [])[:40], witness=wit, implementation=[got[1], got[2]])
     if why is not None or ren is None:
         ctx.violation('counterexample', 'the output is not a signed renaming + clause reordering of the input: %s'
                       % (why or 'no consistent flips/permutation exists'), replay, True, site=site, cls='not-a-shuffle')
         return
-    fixed_broken = None
-    if ren != 'skipped':
-        if modes[0] == 'fixed' and modes[1] == 'fixed' and sorted(map(tuple, got[2])) != sorted(map(tuple, F)):
-            fixed_broken = 'flips and variable permutation switched off but literals changed'
-        if modes[2] == 'fixed' and modes[0] == 'fixed' and modes[1] == 'fixed' and got[2] != F:
-            fixed_broken = 'all three switched off but the formula changed'
-    if modes[2] == 'fixed' and wit is not None and got[2] != reference_shuffle(N, F, wit[0], wit[1], 'fixed'):
-        fixed_broken = fixed_broken or 'clause permutation switched off but the clause order changed'
-    if fixed_broken:
-        ctx.violation('counterexample', fixed_broken, replay, True, site=site, cls='switch-ignored')
+    # is there a renaming that respects the switched-off arguments?
+    ren_sw = find_renaming(N, F, got[2], modes)
+    if ren_sw is None:
+        ctx.violation('counterexample', 'a switched-off argument (modes %r) was not left alone' % (modes,),
+                      dict(replay, some_renaming=ren), True, site=site, cls='switch-ignored')
         return
     ctx.violation('correspondence', 'the output is a shuffle of the input but not the one given by the recorded draws '
                   '(draw protocol of Shuffle changed?); Shuffle.v no longer mirrors the code',
-                  dict(replay, renaming=ren, correspondence='Shuffle.v <-> shuffle.py:Shuffle (random path)'), False,
+                  dict(replay, renaming=ren_sw, correspondence='Shuffle.v <-> shuffle.py:Shuffle (random path)'), False,
                   site=site, cls='witness-mismatch')
 
 
@@ -422,7 +422,7 @@ def run_cli(ctx, quick):
     # cnfshuffle
     nform = 2 if quick else 8
     for fi in range(nform):
-        N, F = random_cnf(rng, maxn=7, maxm=7)
+        N, F = random_cnf(rng, maxn=6, maxm=7)
         if fi == 0:
             N, F = 4, [[1, -2], [], [3, 3], [-1, 2, 2]]     # empty clause, unused variable 4, repeated literal
         text = dimacs(N, F)
@@ -563,11 +563,23 @@ def run(ctx):
             _random.setstate(state)
         descr = dict(formula='%s%r' % (fam, args), modes=['shuffle'] * 3)
         ctx.count('random-library', descr['formula'], True, sample=descr)
+        if got[0] != 'ok':
+            ctx.disagreements_checked += 1
+            ctx.violation('counterexample', 'Shuffle raised %s on the random path' % got[1],
+                          dict(input=descr, implementation=list(got)), True, site='Shuffle', cls='raises-' + got[1])
+            continue
         judge_random(ctx, 'random-library', descr, N, F, ['shuffle'] * 3, draws, got)
 
     # ---- stream 4: command line tools, draws recorded in the child process ----
     run_cli(ctx, quick)
+    drop_redundant(ctx)
     ctx.exhaustive = False
+
+
+def drop_redundant(ctx):
+    """a site for which a failing input was found needs no extra 'model differs' line"""
+    bad = {v['site'] for v in ctx.violations if v['kind'] == 'counterexample'}
+    ctx.violations = [v for v in ctx.violations if not (v['kind'] == 'correspondence' and v['site'] in bad)]
 
 
 def replay(ctx, rp):
